@@ -221,4 +221,17 @@ var specs = []CheckSpec{
 		Assumptions: append([]string{"entry names are unique (duplicates are a documented later-wins case)"}, commonAssumptions...),
 		Outside:     []string{"actual content from stderr or files (same code path: ts.ReadFile)", "more than two golden entries / comparison lines", "scripts whose golden names need expansion"},
 	},
+	{
+		ID: "C04", Pkg: "testscript",
+		Harnesses: []HarnessSpec{
+			{Fn: "VerifC04Isolation", Quick: map[string]int{"S": 2}, Thorough: map[string]int{"S": 2}, Witness: []string{"removed", "retained", "two-scripts", "fail", "skip", "pass-or-stop", "read-only-dir"}},
+		},
+		Bounds: map[string]string{
+			"quick":    "one or two scripts run one after the other through the real RunT; exit kind pass / fail / skip / stop; a read-only directory with a file left in the work dir or not; host environment with GOCOVERDIR and GORACE present or absent plus unrelated variables; TestWork and WorkdirRoot on or off (all choices symbolic)",
+			"thorough": "same (the space is finite and fully covered)",
+		},
+		Stubs: []string{"as C01; the vfs model enforces directory write permission on unlink so that the chmod walk of removeAll matters"},
+		Assumptions: append([]string{"PART CLAIMED: fresh work directory = archive files, environment built from scratch (documented names, Setup additions, GOCOVERDIR/GORACE pass-through, no other host variable), deferred functions in reverse order on every exit kind, work directory and (after the last script) temp root removed unless retention was requested. NOT claimed: non-interference of scripts running in parallel goroutines, liveness of OS processes started by scripts"}, commonAssumptions...),
+		Outside:     []string{"parallel execution of subtests (t.Parallel is a no-op in the recording T: scripts run one at a time)", "background processes and their termination", "real directory removal semantics beyond the model"},
+	},
 }
